@@ -168,3 +168,13 @@ package stackitem
 //@ func IsValidMapKey
 //@ requires[typeinv] wfItem(key)
 //@ ensures[valid] (result == nil) == validKey(key)
+
+// ---- CONVERT on Null: null converts to every well-defined type except Any (and stays null); Any and
+// ill-defined type bytes fault. The reference VM has the same rule.
+//@ spec validType(t Type) bool = t == AnyT || t == PointerT || t == BooleanT || t == IntegerT || t == ByteArrayT || t == BufferT || t == ArrayT || t == StructT || t == MapT || t == InteropT
+//@ func (Type).IsValid
+//@ pure
+//@ ensures[enum] result == validType(t)
+//@ func (Null).Convert
+//@ ensures[fault] (result1 != nil) == (typ == AnyT || !validType(typ))
+//@ ensures[null] result1 == nil ==> is(result0, Null)
